@@ -1016,6 +1016,8 @@ class ZoneAnalysis:
             counter[k] = n + 1
             if n:
                 site.desc = '%s~%d' % (site.desc, n)
+            if site.block in body.debug_assert_blocks():
+                site.debug_only = True      # part of evaluating a `debug_assert!`
             zf.sites.append(site)
 
         def opname(o):
@@ -1102,7 +1104,10 @@ class ZoneAnalysis:
                 cal = t.get('callee') or ''
                 args = t['args']
                 if cal in PANIC_FNS or cal.startswith('core::panicking::'):
-                    add(Site(body.path, bi, 'panic', self._panic_desc(zf, bi), self._assert_need(zf, bi), t['line'], t.get('span')))
+                    st_ = Site(body.path, bi, 'panic', self._panic_desc(zf, bi), self._assert_need(zf, bi), t['line'], t.get('span'))
+                    # a `debug_assert!`: compiled only into builds with debug assertions
+                    st_.debug_only = any(str(m).startswith('debug_assert') for m in (t.get('mac') or []))
+                    add(st_)
                 elif cal in INDEX_CALLS and len(args) == 2 and args[0]['k'] in ('copy', 'move'):
                     cont = zf.desc_place(args[0]['pl'])
                     ln = zf.len_of_desc(cont)
